@@ -616,6 +616,12 @@ def spherematch(ra1, dec1, ra2, dec2, matchlength, chunksize=None,
     #
     if chunksize is None:
         chunksize = max(4.0*matchlength, 0.1)
+    elif chunksize < 4.0*matchlength:
+        #
+        # As in spheregroup(): smaller chunks do not leave enough margin.
+        #
+        chunksize = 4.0*matchlength
+        warn("chunksize changed to {0:.2f}.".format(chunksize), PydlutilsUserWarning)
     #
     # Check input size
     #
